@@ -635,7 +635,7 @@ func (rr *LOC) parse(c *zlexer, o string) *ParseError {
 	if i, err := strconv.ParseFloat(l.token, 64); err != nil || l.err || i < 0 || i >= 60 {
 		return &ParseError{err: "bad LOC Latitude seconds", lex: l}
 	} else {
-		rr.Latitude += uint32(1000 * i)
+		rr.Latitude += uint32(1000*i + 0.5) // round: 1.001 is not exactly representable
 	}
 	c.Next() // zBlank
 	// Either number, 'N' or 'S'
@@ -671,7 +671,7 @@ East:
 	if i, err := strconv.ParseFloat(l.token, 64); err != nil || l.err || i < 0 || i >= 60 {
 		return &ParseError{err: "bad LOC Longitude seconds", lex: l}
 	} else {
-		rr.Longitude += uint32(1000 * i)
+		rr.Longitude += uint32(1000*i + 0.5)
 	}
 	c.Next() // zBlank
 	// Either number, 'E' or 'W'
